@@ -40,8 +40,10 @@ func (x *Exec) script(q *Query, quant bool, z3 bool, model bool) string {
 	b.WriteString(derPrelude(quant))
 	b.WriteString(fmtPrelude(quant))
 	b.WriteString(cryptoPrelude())
+	b.WriteString(timePrelude())
 	if quant {
 		b.WriteString(cryptoPreludeQ())
+		b.WriteString(timePreludeQ())
 	}
 	for _, sp := range spec {
 		b.WriteString(sp)
